@@ -133,10 +133,14 @@ Proof. exists (2 ^ 53)%Z, (2 ^ 53 + 1)%Z. split; [lia|]. vm_compute. reflexivity
 (* ---------- Float -> Integer ---------- *)
 (* whatever is accepted converts back to the same float: Some i only if (i as f64) == x *)
 Theorem f2i_round_trip x i : f2i x = Some i -> feq (i2f i) x = true.
-Proof. unfold f2i. destruct (feq (i2f (f_as_i64 x)) x) eqn:E; [intros [= <-]; exact E|discriminate]. Qed.
+Proof.
+  unfold f2i. destruct (flt x (i2f (2 ^ 63))); [|discriminate]. cbn [andb].
+  destruct (feq (i2f (f_as_i64 x)) x) eqn:E; [intros [= <-]; exact E|discriminate].
+Qed.
 
-Theorem f2i_i2f_small i : (Z.abs i <= 2 ^ 53)%Z -> feq (i2f (f_as_i64 (i2f i))) (i2f i) = true -> f2i (i2f i) = Some (f_as_i64 (i2f i)).
-Proof. intros _ H. unfold f2i. now rewrite H. Qed.
+(* 2^63 itself is refused (it would saturate to i64::MAX) *)
+Example f2i_two_pow_63_refused : f2i (i2f (2 ^ 63)) = None /\ f2i (i2f (- 2 ^ 63)) = Some (- 2 ^ 63)%Z.
+Proof. vm_compute. split; reflexivity. Qed.
 
 (* a non-integral float is refused: 0.5, 1.5, -2.25, and the largest non-integral double *)
 Example f2i_lossy_refused :
